@@ -46,6 +46,9 @@ package aggregations
 //@   requires forall k int :: 0 <= k && k < len(b.ranges) ==> b.ranges[k] != nil
 //@   check index
 //@   at call Consume: assert [fed-only-when-in-range] val >= rang.low && val < rang.high
+// ranges may overlap: a value is offered to EVERY range, the walk over the ranges ends only behind the last one
+//@   loop 2
+//@     leaves [every-range-is-offered-every-value] rangeindex + 1 >= len(b.ranges)
 
 // terms aggregation: total counts every hit exactly once, however many values the hit has for
 // the field (Finish derives `other` from it); every value of the hit feeds exactly one bucket
